@@ -1,9 +1,76 @@
 (* C03 - Build then read returns exactly what was written.
-   Only statements, each closed by [exact] of a lemma proved in Builder/*.v. *)
-From Flatcc.Format Require Import Schema Spec.
-From Flatcc.Builder Require Import EmitModel BuilderBasics.
+   Only statements, each closed by [exact] of a lemma proved in Builder/*.v.
+   The abstract reader is Format/Spec.v [decode_root] (scalars and structs as byte lists: "bit exact" is literal;
+   a table as the list of its present fields - the generated reader's "absent = schema default, is_present false" is
+   checked against the generated accessors by checks/c03.py on every run).  Same fragment as C02 (see Properties_C02.v). *)
+From Flatcc.Format Require Import Schema Spec SpecProofs.
+From Flatcc.Builder Require Import EmitModel VMem Objects Leaves OffVec TableLayout Table Buffer Script ScriptProofs Example.
 Local Open Scope Z_scope.
 
-Theorem C03_le16_value : forall x, 0 <= x < 65536 -> x mod 256 + 256 * ((x / 256) mod 256) = x.
-Proof. exact le16_value. Qed.
-Print Assumptions C03_le16_value.
+(* Decoding the finished bytes of a well-typed build returns exactly the value tree the script built (every use of a
+   shared reference decodes to the same value). *)
+Theorem C03_build_decode : forall Sc sc R v ws n regs ems st,
+  wt_script Sc sc R v ws n -> run init_state [] sc = Some (regs, ems, st) -> small st ->
+  decode_root n Sc R ws (buffer_bytes st) = Some v.
+Proof. exact build_decode. Qed.
+Print Assumptions C03_build_decode.
+
+(* ... also when the start of the buffer is only as aligned as the builder reports (or as any list of further alignment
+   references that are multiples of it). *)
+Theorem C03_build_decodes_aligned : forall Sc sc R v ws n regs ems st,
+  wt_script Sc sc R v ws n -> run init_state [] sc = Some (regs, ems, st) -> small st ->
+  (forall ds0, Forall (fun d => d mod buffer_alignment st = 0) ds0 ->
+     decode_mem n Sc R ws ds0 (mem_of_list (buffer_bytes st)) (lenZ (buffer_bytes st)) = Some v) /\
+  pow2 (buffer_alignment st) /\ 4 <= buffer_alignment st.
+Proof. exact build_decodes. Qed.
+Print Assumptions C03_build_decodes_aligned.
+
+(* The leaves: what create_string / create_struct / create_vector / an offset vector emit reads back as what was given. *)
+Theorem C03_string_roundtrip : forall n Sc st s ref e st',
+  st_ok st -> ma_ok st -> create_string st s = Some (ref, e, st') -> small st' ->
+  step st st' /\ e_start st' = ref /\ ref < e_start st /\ e_end st' = e_end st /\ min_align st' = min_align st /\ vcache st' = vcache st /\
+  ref mod 4 = 0 /\ valid n Sc st' (lvl_align st') OString ref (VString s).
+Proof. exact create_string_valid. Qed.
+Print Assumptions C03_string_roundtrip.
+
+Theorem C03_struct_roundtrip : forall n Sc st data al ref e st',
+  st_ok st -> ma_ok st -> pow2 al -> create_struct st data al = Some (ref, e, st') -> small st' ->
+  step st st' /\ e_start st' = ref /\ ref < e_start st /\ e_end st' = e_end st /\ vcache st' = vcache st /\
+  ref mod al = 0 /\ valid n Sc st' (lvl_align st') (OStruct (lenZ data) al) ref (VBytes data).
+Proof. exact create_struct_valid. Qed.
+Print Assumptions C03_struct_roundtrip.
+
+Theorem C03_vector_roundtrip : forall n Sc st elems count esize align maxcount ref e st',
+  st_ok st -> ma_ok st -> pow2 align -> 1 <= esize <= U32_MAX ->
+  Forall (fun e => lenZ e = esize) elems -> count = Z.of_nat (length elems) ->
+  maxcount * esize <= U32_MAX ->
+  create_vector st (concat elems) count esize align maxcount = Some (ref, e, st') -> small st' ->
+  step st st' /\ e_start st' = ref /\ ref < e_start st /\ e_end st' = e_end st /\ vcache st' = vcache st /\
+  ref mod 4 = 0 /\ count <= maxcount /\
+  valid n Sc st' (lvl_align st') (OVec esize align) ref (VVec elems).
+Proof. exact create_vector_valid. Qed.
+Print Assumptions C03_vector_roundtrip.
+
+Theorem C03_offset_vector_roundtrip : forall n Sc st ety refs vs ref e st',
+  st_ok st -> ma_ok st -> (ety = OString \/ exists t, ety = OTable t) ->
+  Forall2 (fun r v => e_start st <= r < 0 /\ valid n Sc st (lvl_align st) ety r v) refs vs ->
+  create_offset_vector st refs = Some (ref, e, st') -> small st' ->
+  step st st' /\ e_start st' = ref /\ ref < e_start st /\ e_end st' = e_end st /\ vcache st' = vcache st /\ ref mod 4 = 0 /\
+  valid n Sc st' (lvl_align st') (offvec_ty ety) ref (VOffVec vs).
+Proof. exact create_offset_vector_valid. Qed.
+Print Assumptions C03_offset_vector_roundtrip.
+
+(* satisfiable: the example of Builder/Example.v decodes to its value *)
+Theorem C03_example_decodes : exists regs ems st,
+  run init_state [] ex_script = Some (regs, ems, st) /\ decode_root 2 ex_schema (RTable 1) true (buffer_bytes st) = Some ex_value.
+Proof.
+  destruct ex_runs as (regs & ems & st & E & Hsm & _). exists regs, ems, st. split; [exact E|].
+  exact (build_decode ex_schema ex_script (RTable 1) ex_value true 2 regs ems st ex_wt E Hsm).
+Qed.
+Print Assumptions C03_example_decodes.
+
+(* Full statements not yet proved (decided by checks/c03.py on every run):
+   build_decode_full : as C03_build_decode for union vectors and nested buffers;
+   reader_decode     : verify_root ... b = Ok -> every generated accessor returns the field of decode_root b
+                       (absent scalar = schema default, is_present false; optional = null; force-added default present);
+   the generated T_f_add default elision / T_create argument order. *)
